@@ -69,7 +69,7 @@ pub fn strategy() -> impl Strategy<Value = Case> {
     ];
     let op = prop_oneof![
         6 => (-3i64..=3).prop_map(Op::Rel),
-        3 => prop_oneof![Just(0usize), 1usize..40, 1000usize..1100, 2040usize..2060, 3073usize..3080].prop_map(Op::Abs),
+        3 => prop_oneof![4 => Just(0usize), 4 => 1usize..40, 4 => 1000usize..1100, 4 => 2040usize..2060, 4 => 3073usize..3080, 1 => prop::sample::select(vec![8191usize, 8192, 8193, 16385, 65535, 65536, 65537])].prop_map(Op::Abs),
         1 => Just(Op::Restart),
     ];
     (
@@ -377,6 +377,11 @@ pub fn run(run: &Run) {
     let f = move |c: &Case, o: &mut Obs| check(&tmp, c, o);
     run.run_replays::<Case>("size", &f);
     run.search("size", run.tier.pick(2_000, 100_000), strategy(), &f);
+    if run.worker.0 == 0 {
+        // one long lifetime: thousands of rotations through one appender (counters of any width must keep up)
+        let ops: Vec<Op> = (0..6000).map(|i| Op::Abs(20 + (i % 7) * 5)).collect();
+        run.eval_one("size", &Case { limit: 100, append_mode: true, pre: None, count: 2, chunks: None, charset: 0, ops, flaky: vec![], enc_fail: vec![], symlink: false }, &f);
+    }
     let tmp = run.tmp.clone();
     let g = move |c: &Conc, o: &mut Obs| check_conc(&tmp, c, o);
     run.run_replays::<Conc>("contended", &g);
